@@ -15,7 +15,9 @@ REPO = os.environ.get('VERIF_REPO', '/repo')
 LEAN_DIR = os.path.join(VERIF, 'lean')
 BUILD = os.path.join(VERIF, 'build')
 REPLAY_DIR = os.path.join(BUILD, 'replay')
-EVIDENCE_DIR = os.path.join(VERIF, 'evidence')
+# evidence describes /repo; a run against another tree (VERIF_REPO=<copy>, used to try seeded changes) keeps its
+# record under build/ so that the committed evidence is never overwritten by it
+EVIDENCE_DIR = os.path.join(VERIF, 'evidence') if REPO == '/repo' else os.path.join(VERIF, 'build', 'evidence_other_tree')
 ALLOWED_AXIOMS = {'propext', 'Classical.choice', 'Quot.sound'}
 FORBIDDEN = re.compile(
     r'\b(sorry|admit|native_decide|bv_decide|implemented_by|unsafe)\b|^\s*axiom\s|maxHeartbeats\s+0\b',
